@@ -34,6 +34,7 @@ type rnode struct {
 	ro       *router.Router
 	tun      *tun.Device
 	upstream chan frame.Frame
+	peerIn   chan frame.Frame // frames read by real links (peering's frame handler channel)
 	builder  *frame.Builder
 	links    map[netip.Addr]*hlink
 	world    *rworld
@@ -86,7 +87,8 @@ func (w *rworld) addNode(name string, store config.Store, id *m.Address) (*rnode
 	n.upstream = make(chan frame.Frame, 4096)
 	n.sw = switchr.New(n.stub, n.upstream)
 	n.stub.SwitchStub = n.sw
-	n.pe = peering.New(&nodeInst{n.stub, n}, make(chan frame.Frame, 16))
+	n.peerIn = make(chan frame.Frame, 1024)
+	n.pe = peering.New(&nodeInst{n.stub, n}, n.peerIn)
 	n.stub.PeeringStub = n.pe
 	ro, err := router.New(n.stub, router.Config{})
 	if err != nil {
